@@ -13,6 +13,7 @@
 #include <cstdio>
 #include <cstdlib>
 #include <cstring>
+#include <dirent.h>
 #include <fcntl.h>
 #include <fstream>
 #include <functional>
@@ -99,6 +100,9 @@ inline std::string json_field(const std::string &text, const std::string &key) {
     for (size_t i = a; i < text.size(); i++) { if (text[i] == '\\') { raw += text[i]; raw += text[++i]; continue; } if (text[i] == '"') break; raw += text[i]; }
     return junesc(raw);
 }
+
+// number of open file descriptors of this process (the directory stream used for counting is not included)
+inline int open_fds() { int n = 0; if (DIR *d = opendir("/proc/self/fd")) { while (dirent *e = readdir(d)) if (e->d_name[0] != '.') n++; closedir(d); n--; } return n; }
 
 inline std::string read_file(const std::string &p) { std::ifstream f(p, std::ios::binary); std::stringstream ss; ss << f.rdbuf(); return ss.str(); }
 inline std::string tail(const std::string &s, size_t n) { return s.size() > n ? s.substr(s.size() - n) : s; }
